@@ -492,6 +492,20 @@ pub mod verif_hooks {
       by: by.to_string(),
     })
   }
+  /// `Transformation::compute` against `env` with no rewriters and an empty enclosing env.
+  pub fn compute_with_env<'c, D: Doc>(
+    t: &Transformation<MetaVariable>,
+    env: &mut ast_grep_core::meta_var::MetaVarEnv<'c, D>,
+  ) -> Option<String> {
+    let rewriters = Default::default();
+    let enclosing_env = ast_grep_core::meta_var::MetaVarEnv::new();
+    let mut ctx = Ctx {
+      rewriters: &rewriters,
+      env,
+      enclosing_env: &enclosing_env,
+    };
+    t.compute(&mut ctx)
+  }
   pub fn rewrite(
     source: &str,
     rewriters: Vec<String>,
